@@ -32,6 +32,9 @@ type SwapTxInfo struct {
 	TxVout              uint32
 	StartingBlockHeight uint32
 	Csv                 uint32
+
+	// notifying is set while the csv callback for this entry is running.
+	notifying bool
 }
 
 type observerInfo struct {
@@ -172,9 +175,17 @@ func (s *BlockchainRpcTxWatcher) StartBlockWatcher() error {
 
 // HandleCsvTx looks for transactions that have enough confirmations to be spend using the csv path
 func (s *BlockchainRpcTxWatcher) HandleCsvTx(blockheight uint64) error {
-	var toRemove []string
+	// The csv callback re-enters the swap state machine, which may in turn
+	// call back into this watcher (AddWaitForCsvTx) while holding its own
+	// lock. Work on a snapshot and never call back while holding the lock.
 	s.Lock()
+	watched := make(map[string]SwapTxInfo, len(s.csvtxWatchList))
 	for k, v := range s.csvtxWatchList {
+		watched[k] = *v
+	}
+	s.Unlock()
+
+	for k, v := range watched {
 		res, err := s.blockchain.GetTxOut(v.TxId, v.TxVout)
 		if err != nil {
 			log.Infof("watchlist fetchtx err: %v", err)
@@ -186,20 +197,40 @@ func (s *BlockchainRpcTxWatcher) HandleCsvTx(blockheight uint64) error {
 		if v.Csv > res.Confirmations {
 			continue
 		}
-		if s.csvPassedCallback == nil {
-			continue
+		s.notifyCsvPassed(k)
+	}
+	return nil
+}
+
+// notifyCsvPassed calls the csv callback for a watched swap, at most one call
+// at a time per swap and never while holding the watcher lock. On success the
+// swap is removed from the watch list.
+func (s *BlockchainRpcTxWatcher) notifyCsvPassed(swapId string) {
+	s.Lock()
+	info, ok := s.csvtxWatchList[swapId]
+	callback := s.csvPassedCallback
+	if !ok || info.notifying || callback == nil {
+		s.Unlock()
+		return
+	}
+	info.notifying = true
+	s.Unlock()
+
+	err := callback(swapId)
+
+	s.Lock()
+	if cur, ok := s.csvtxWatchList[swapId]; ok && cur == info {
+		if err == nil {
+			delete(s.csvtxWatchList, swapId)
+		} else {
+			cur.notifying = false
 		}
-		err = s.csvPassedCallback(k)
-		if err != nil {
-			log.Infof("csv passed callback err: %v. swap id: %s, tx id: %s, starting block height: %d",
-				err, k, v.TxId, v.StartingBlockHeight)
-			continue
-		}
-		toRemove = append(toRemove, k)
 	}
 	s.Unlock()
-	s.TxClaimed(toRemove)
-	return nil
+	if err != nil {
+		log.Infof("csv passed callback err: %v. swap id: %s, tx id: %s, starting block height: %d",
+			err, swapId, info.TxId, info.StartingBlockHeight)
+	}
 }
 
 func (l *BlockchainRpcTxWatcher) AddWaitForConfirmationTx(swapId, txId string, vout, startingBlockheight, paymentWindow uint32, _ []byte) {
@@ -232,29 +263,30 @@ func (l *BlockchainRpcTxWatcher) checkTxAboveCsvHight(txId string, vout, csv uin
 }
 
 func (l *BlockchainRpcTxWatcher) AddWaitForCsvTx(swapId, txId string, vout uint32, startingBlockheight, csv uint32, _ []byte) {
-	// Before we add the tx to the watcher we check if the tx is already
-	// above the csv limit.
-	above, err := l.checkTxAboveCsvHight(txId, vout, csv)
-	if err != nil {
-		log.Infof("[TxWatcher] checkTxAboveCsvHeight returned: %s", err.Error())
-	}
-	if above {
-		err = l.csvPassedCallback(swapId)
-		if err == nil {
-			log.Infof("Swap %s already past CSV limit", swapId)
-			return
-		}
-		log.Infof("csv passed callback error: %v", err)
-	}
-
 	l.Lock()
-	defer l.Unlock()
 	l.csvtxWatchList[swapId] = &SwapTxInfo{
 		TxId:                txId,
 		TxVout:              vout,
 		Csv:                 csv,
 		StartingBlockHeight: startingBlockheight,
 	}
+	l.Unlock()
+
+	// The tx may already be above the csv limit (recovery, or a cancel that
+	// arrives late). The csv callback re-enters the swap state machine that
+	// is executing this very call and holds its lock, so it must not run on
+	// this goroutine.
+	go func() {
+		above, err := l.checkTxAboveCsvHight(txId, vout, csv)
+		if err != nil {
+			log.Infof("[TxWatcher] checkTxAboveCsvHeight returned: %s", err.Error())
+			return
+		}
+		if above {
+			log.Infof("Swap %s already past CSV limit", swapId)
+			l.notifyCsvPassed(swapId)
+		}
+	}()
 }
 
 func (l *BlockchainRpcTxWatcher) TxClaimed(swaps []string) {
